@@ -949,7 +949,11 @@ class DataInfo(Sequence, Immutable):
                 "type": col.type,
                 "scale": col.scale,
                 "continuous": col.continuous,
-                "categories": col.categories,
+                "categories": (
+                    dict(col.categories)
+                    if isinstance(col.categories, frozenmapping)
+                    else col.categories
+                ),
                 "unit": str(col.unit),
                 "datatype": col.datatype,
                 "drop": col.drop,
